@@ -5,7 +5,7 @@
    The request and response are given as the facts the code reads through its typed accessors
    (req.if_none_match, req.if_modified_since, req.range's header text, req.if_range, resp.etag /
    etag_strong, resp.last_modified, resp.status / status_code, resp.content_length,
-   resp.content_range is None) plus the header list and the app_iter.  Dates are POSIX seconds.
+   "Content-Range" in resp.headers, as repaired by fixes/C06-6) plus the header list and the app_iter.  Dates are POSIX seconds.
    Definitions only (no proofs). *)
 From Coq Require Import ZArith NArith List Bool String.
 Require Import Webob.Lib.Val Webob.Lib.PyStr Webob.Model.C06_ByteRange Webob.Model.C06_AppIterRange.
@@ -53,7 +53,7 @@ Record cin := mkIn {
   r_etag : option (str * bool);   (* resp.etag and whether the header carries W/ *)
   r_lm : option Z;                (* resp.last_modified *)
   r_clen : option Z;              (* resp.content_length *)
-  r_has_cr : bool;                (* resp.content_range is not None *)
+  r_has_cr : bool;                (* "Content-Range" in resp.headers: any text, valid or not *)
   r_headers : list (str * str);   (* resp._abs_headerlist(environ), no Location among them *)
   r_app : app_iter
 }.
